@@ -315,6 +315,46 @@ func (s *dpState) drop(ds string) {
 	delete(s.datasets, ds)
 }
 
+// punchHole removes one operand of the deepest-first operator node found (or the whole
+// expression of a leaf-only query) and returns the function that puts it back.
+func punchHole(q *updog.Query) func() {
+	var find func(e updog.Expression) func() func()
+	find = func(e updog.Expression) func() func() {
+		switch x := e.(type) {
+		case *updog.ExprNot:
+			if f := find(x.Expr); f != nil {
+				return f
+			}
+			return func() func() { old := x.Expr; x.Expr = nil; return func() { x.Expr = old } }
+		case *updog.ExprAnd:
+			for _, o := range x.Exprs {
+				if f := find(o); f != nil {
+					return f
+				}
+			}
+			if len(x.Exprs) > 0 {
+				return func() func() { i := len(x.Exprs) - 1; old := x.Exprs[i]; x.Exprs[i] = nil; return func() { x.Exprs[i] = old } }
+			}
+		case *updog.ExprOr:
+			for _, o := range x.Exprs {
+				if f := find(o); f != nil {
+					return f
+				}
+			}
+			if len(x.Exprs) > 0 {
+				return func() func() { old := x.Exprs[0]; x.Exprs[0] = nil; return func() { x.Exprs[0] = old } }
+			}
+		}
+		return nil
+	}
+	if f := find(q.Expr); f != nil {
+		return f()
+	}
+	old := q.Expr
+	q.Expr = nil
+	return func() { q.Expr = old }
+}
+
 func execQuery(ix *updog.Index, q *updog.Query) string {
 	var (
 		r   *updog.Result
@@ -509,6 +549,33 @@ func dpCmd(args []string) {
 				q.Expr = e2
 			}
 			pr("HQ %s.b %s\n", qid, execQuery(h.ix, q))
+		case "QHOLE":
+			// a Query executed while one operand is still missing (rejected), completed by the
+			// caller in place, executed again: must answer like a fresh query (C08)
+			qid, ds, writer, mode := t.next(), t.next(), t.next(), t.next()
+			e := t.expr()
+			if t.next() != "GB" {
+				fatal("expected GB")
+			}
+			m := t.int()
+			var gb []string
+			for j := 0; j < m; j++ {
+				gb = append(gb, t.str())
+			}
+			ix, oc := s.index(ds, writer, mode)
+			if ix == nil {
+				pr("QH %s.0 %s\nQH %s.1 %s\n", qid, oc, qid, oc)
+				continue
+			}
+			q := &updog.Query{Expr: e, GroupBy: gb}
+			restore := punchHole(q)
+			first := execQuery(ix, q)
+			if first != "PANIC" {
+				first = "ERR-OR-OK"
+			}
+			pr("QH %s.0 %s\n", qid, first)
+			restore()
+			pr("QH %s.1 %s\n", qid, execQuery(ix, q))
 		case "QMOD":
 			// one *updog.Query executed, then modified by the caller (tree rewritten in place,
 			// group-by list replaced / cleared, value copy) and executed again (C08)
@@ -571,13 +638,38 @@ func dpCmd(args []string) {
 			q := &updog.Query{Expr: e, GroupBy: gb}
 			exprBefore := e.String()
 			gbBefore := append([]string(nil), gb...)
+			type kept struct {
+				r *updog.Result
+				s string
+			}
+			var keep []kept // results stay with the caller: a later execution must not change them
 			for j, ds := range dss {
 				ix, oc := s.index(ds, writer, mode)
 				if ix == nil {
 					pr("QV %s.%d %s\n", qid, j, oc)
 					continue
 				}
-				pr("QV %s.%d %s\n", qid, j, execQuery(ix, q))
+				var r *updog.Result
+				var err error
+				_, ok := guard(func() { r, err = ix.Execute(q) })
+				out := "PANIC"
+				if ok && err != nil {
+					out = "ERR"
+				} else if ok {
+					out = fmtResult(r)
+					keep = append(keep, kept{r, out})
+				}
+				pr("QV %s.%d %s\n", qid, j, out)
+			}
+			resultChanged := -1
+			for j, k := range keep {
+				if now := fmtResult(k.r); now != k.s && resultChanged < 0 {
+					resultChanged = j
+				}
+			}
+			if resultChanged >= 0 {
+				pr("QVF %s EARLIER-RESULT-%d-CHANGED-BY-A-LATER-EXECUTION\n", qid, resultChanged)
+				continue
 			}
 			same := q.Expr == e && q.Expr.String() == exprBefore && len(q.GroupBy) == len(gbBefore)
 			if same {
@@ -605,6 +697,8 @@ func dpCmd(args []string) {
 				continue
 			}
 			pr("SCHEMA %s %s\n", qid, fmtSchema(sch))
+		case "KEYFEED":
+			s.keyFeed(t.next())
 		case "RAWKEYS":
 			qid, ds, writer := t.next(), t.next(), t.next()
 			s.rawKeys(qid, ds, writer)
